@@ -113,7 +113,8 @@ func (t *Timer) Scheduled() bool {
 
 func (t *Timer) Cancel() error {
 	err := t.it.Unset()
-	if err == nil {
+	if err == nil && t.state != stateClosed {
+		// A closed timer stays closed: it must not become schedulable again.
 		t.cancelled = true
 		t.state = stateReady
 	}
